@@ -12,6 +12,7 @@ fn main() {
     match a.engine.as_str() {
         "asm" => e_asm::run_asm(&a),
         "fx" => e_asm::run_fx(&a),
+        "mapped" => e_asm::run_mapped(&a),
         "vm" => e_vm::run(&a),
         other => { eprintln!("unknown engine {other}"); std::process::exit(2); }
     }
